@@ -66,7 +66,7 @@ func NewWorld(rng *rand.Rand, pageLimit int, mainnet bool, pollMs uint, step fun
 		// some history before the watcher starts
 		b := s.AddBlock(randHex(rng, 32), 990, time.Now().UnixMilli()-9e9, true)
 		for i := 0; i < rng.Intn(4); i++ {
-			in := w.intent("transfer", 1)
+			in := w.Intent("transfer", 1)
 			s.Emit(s.Core, b, randHex(rng, 32), 0, FieldsOf(in), in, "pre-start")
 		}
 	})
@@ -85,7 +85,7 @@ func pad32(s string) []byte {
 }
 
 // intent builds a message of the given kind.
-func (w *World) intent(kind string, cl uint8) *Intent {
+func (w *World) Intent(kind string, cl uint8) *Intent {
 	in := &Intent{Sender: w.TB, Target: uint16(w.Rng.Intn(30)), Seq: w.NextSeq, Nonce: w.Rng.Uint32(), CL: cl}
 	w.NextSeq++
 	switch kind {
@@ -147,13 +147,13 @@ func (w *World) NewBlock(s *Sim, fresh bool) *Block {
 // event of another contract in the same transaction.
 func (w *World) EmitTx(s *Sim, b *Block, kind string, cl uint8, lookalike bool) (string, *Ev) {
 	tx := randHex(w.Rng, 32)
-	in := w.intent(kind, cl)
+	in := w.Intent(kind, cl)
 	e := s.Emit(s.Core, b, tx, 0, FieldsOf(in), in, kind)
 	s.TxBlock[tx] = b.Hash
 	w.TxOf[tx] = []*Ev{e}
 	w.Txs = append(w.Txs, tx)
 	if lookalike {
-		li := w.intent("transfer", 0)
+		li := w.Intent("transfer", 0)
 		s.Emit(w.Other, b, tx, 0, FieldsOf(li), li, "lookalike-of-other-contract")
 		// and an unrelated event with another index
 		s.Emit(w.Other, b, tx, 1, []map[string]interface{}{U256("1")}, nil, "other-contract-index-1")
